@@ -61,6 +61,7 @@ def params(alg, fam, text):
         "VF_BLOCK": "%du" % block, "VF_LOG2": str(log2), "VF_LENF": "%du" % lenf,
         "VF_BE": str(be), "VF_NWORDS": str(nwords), "VF_SM3SWAP": str(swap),
         "VF_IVLIST": iv,
+        "VF_LOOP_EXTRA": ", j" if swap else "",
         "VF_MGR_SUBMIT": m.pop(), "VF_MGR_FLUSH": f.pop(),
         "fn_submit": sym("submit"), "fn_flush": sym("flush"), "fn_init": sym("init"),
         "fn_resubmit": "%s_ctx_mgr_resubmit" % alg,
@@ -72,7 +73,11 @@ HARNESS = r"""
  * All objects are allocated here by real assignments (exact sizes), so that CBMC's
  * points-to sets are known; everything else (contents, ghosts, scalars) is nondet. */
 #include <stdlib.h>
+#ifdef VF_WITH_CANARY
 #define VF_CANARY() __CPROVER_assert(0, "vf_canary: end of harness reachable")
+#else
+#define VF_CANARY() ((void) 0)
+#endif
 #ifdef VF_TYPED_OBJECTS
 #define VF_ZERO 0
 #else
@@ -148,6 +153,140 @@ def annotate(alg, fam, path):
         overlay.nth_loop_rule(p["fn_resubmit"], r"while \(ctx\) \{(?P<at>)", "VF_PIN(ctx);", name="pin:resubmit"),
         overlay.nth_loop_rule(p["fn_flush"], r"while \(1\)(?P<at>) \{", "VF_L_FLUSH"),
     ]
+    if ALGS[alg][7]:  # SM3: byte-swap loop variable declared inside the contract loop
+        rules += overlay.hoist_decl_rule(p["fn_resubmit"], r"(?P<decl>unsigned int j;)", "unsigned int j;", "hoist:j")
     out, fired = overlay.apply(text, rules)
     out += HARNESS % p
     return out, p, fired, overlay.sha256_text(text)
+
+
+# ---------------------------------------------------------------------------
+# Alpha-equivalence classes of the template instances
+# ---------------------------------------------------------------------------
+def _strip_comments(t):
+    t = re.sub(r"/\*.*?\*/", " ", t, flags=re.S)
+    t = re.sub(r"//[^\n]*", " ", t)
+    return t
+
+
+def canonical_functions(alg, fam, text, p):
+    """function role -> canonical text (identifiers of the algorithm/family renamed to
+    role names, comments and white space removed).  Two instances with equal canonical
+    text and equal parameter macros are alpha-equivalent: a proof of one is a proof of
+    the other (the assumed manager contract is the same text as well)."""
+    out = {}
+    A = alg.upper()
+    for role, fn in (("submit", p["fn_submit"]), ("flush", p["fn_flush"]), ("resubmit", p["fn_resubmit"]),
+                     ("hash_pad", "hash_pad"), ("hash_init_digest", "hash_init_digest"), ("init", p["fn_init"])):
+        lo, hi = overlay.function_span(text, fn)
+        t = _strip_comments(text[lo:hi])
+        t = t.replace(p["VF_MGR_SUBMIT"], "MGR_SUBMIT").replace(p["VF_MGR_FLUSH"], "MGR_FLUSH")
+        t = t.replace(p["fn_submit"], "CTX_SUBMIT").replace(p["fn_flush"], "CTX_FLUSH")
+        t = t.replace(p["fn_resubmit"], "CTX_RESUBMIT").replace(p["fn_init"], "CTX_INIT")
+        t = re.sub(r"\b_?%s_[sm]b_mgr_init_\w+" % alg, "MGR_INIT", t)
+        t = t.replace("ISAL_%s_" % A, "ISAL_X_")
+        t = re.sub(r"\s+", "", t)
+        out[role] = t
+    return out
+
+
+def param_key(p):
+    return tuple(p[k] for k in ("VF_BLOCK", "VF_LOG2", "VF_LENF", "VF_BE", "VF_NWORDS", "VF_SM3SWAP", "VF_WORD_T", "VF_IVLIST"))
+
+
+REFERENCE = ("sha256", "avx2")
+ROLE_FN = {"submit": "fn_submit", "flush": "fn_flush", "resubmit": "fn_resubmit",
+           "hash_pad": None, "hash_init_digest": None}
+
+ASPECT_DEFS = {
+    "proto": ["VF_NO_TAPE", "VF_NO_WORK"],
+    "work": ["VF_NO_TAPE"],
+    "tape": ["VF_NO_WORK"],
+}
+COST = {("proto", "submit"): 200, ("proto", "resubmit"): 60, ("proto", "flush"): 12,
+        ("work", "submit"): 400, ("work", "resubmit"): 80, ("work", "flush"): 15,
+        ("tape", "submit"): 3000, ("tape", "resubmit"): 800, ("tape", "flush"): 40}
+
+
+class CtxPlan:
+    """Annotates every scheduler-driven context file and decides which (file, role,
+    aspect) triples are proved in this run and which are covered by alpha-equivalence."""
+
+    def __init__(self, workdir, repo=REPO):
+        self.workdir = workdir
+        self.files = {}
+        os.makedirs(workdir, exist_ok=True)
+        for alg, fam, path in scheduler_files(repo):
+            text = open(path).read()
+            out, p, fired, sha = annotate(alg, fam, path)
+            dst = os.path.join(workdir, "%s_ctx_%s.c" % (alg, fam))
+            with open(dst, "w") as f:
+                f.write(out)
+            self.files[(alg, fam)] = {
+                "path": path, "anno": dst, "p": p, "fired": fired, "sha256": sha,
+                "canon": canonical_functions(alg, fam, text, p), "pkey": param_key(p),
+            }
+        if REFERENCE not in self.files:
+            raise overlay.OverlayError("reference instance %s_%s missing" % REFERENCE)
+
+    def groups(self, role, by_param):
+        """equivalence classes of instances for one role; key includes the parameter set
+        when by_param is True"""
+        g = {}
+        for k, f in sorted(self.files.items()):
+            key = (f["canon"][role], f["pkey"] if by_param else None)
+            g.setdefault(key, []).append(k)
+        return list(g.values())
+
+    def select(self, role, mode):
+        """mode 'reference': the reference instance + one member of every class whose text
+        differs from the reference's (parameter sets not distinguished);
+        'per_param': one member of every (text, parameter set) class;
+        'all': every instance.  Returns (chosen, transferred{inst: proved_inst})"""
+        chosen, transferred = [], {}
+        if mode == "all":
+            return sorted(self.files.keys()), {}
+        for grp in self.groups(role, by_param=(mode == "per_param")):
+            rep = REFERENCE if REFERENCE in grp else grp[0]
+            chosen.append(rep)
+            for k in grp:
+                if k != rep:
+                    transferred[k] = rep
+        return chosen, transferred
+
+    def job(self, inst, role, aspect, timeout=None, solvers=("minisat",), split=False):
+        f = self.files[inst]
+        p = f["p"]
+        alg, fam = inst
+        d = ALGS[alg][0]
+        inc = [os.path.join(REPO, "include"), os.path.join(REPO, d), os.path.join(VERIF, "contracts")]
+        defs = ["SAFE_DATA", "SAFE_PARAM", "NDEBUG"] + ASPECT_DEFS.get(aspect, [])
+        J = {
+            "hash_pad": dict(entry="vf_h_hash_pad", enforce="hash_pad"),
+            "hash_init_digest": dict(entry="vf_h_init_digest", enforce="hash_init_digest"),
+            "resubmit": dict(entry="vf_h_resubmit", enforce=p["fn_resubmit"],
+                             replace=[p["VF_MGR_SUBMIT"], "memcpy_sse_varlen", "hash_pad"], loop_contracts=True,
+                             expect_classes=["loop_invariant_step", "postcondition", "precondition"]),
+            "submit": dict(entry="vf_h_submit", enforce=p["fn_submit"],
+                           replace=[p["VF_MGR_SUBMIT"], "memcpy_sse_varlen", "hash_init_digest", p["fn_resubmit"]],
+                           expect_classes=["postcondition", "precondition"]),
+            "flush": dict(entry="vf_h_flush", enforce=p["fn_flush"],
+                          replace=[p["VF_MGR_FLUSH"], p["fn_resubmit"]], loop_contracts=True,
+                          expect_classes=["loop_invariant_step", "postcondition", "precondition"]),
+        }[role]
+        if role in ("submit", "resubmit"):
+            lo, hi = overlay.function_span(open(f["path"]).read(), p["fn_" + role])
+            body = open(f["path"]).read()[lo:hi]
+            J["replace"] = [r for r in J["replace"] if r != "memcpy_sse_varlen"]
+            if "memcpy_varlen" in body:
+                J["replace"].append("memcpy_sse_varlen")
+            if "memcpy_fixedlen" in body:
+                J["replace"].append("memcpy_sse_fixedlen")
+        cost = COST.get((aspect, role), 10)
+        return Job(
+            "ctx/%s_%s/%s/%s" % (alg, fam, role, aspect), [f["anno"]], includes=inc, defines=defs,
+            unwind=24, solvers=list(solvers), timeout=timeout or max(600, cost * 4), split=split,
+            meta={"file": os.path.relpath(f["path"], REPO), "sha256": f["sha256"], "aspect": aspect,
+                  "role": role, "inst": "%s_%s" % inst, "cost": cost, "fired": f["fired"]},
+            **J,
+        )
